@@ -456,10 +456,14 @@ func (w *world) exec(o *op) string {
 		r = w.errRes(w.rc.SetStoreWeight(o.ID, float64(o.LW), float64(o.RW)))
 	case "clean":
 		r = w.errRes(w.rc.RemoveTombStoneRecords())
+		// the order in which the map iteration reached the tombstones (Storage.DeleteStore issues several writes per
+		// store: weight keys, record, and the restoring writes after a failure): first appearance of each store id
 		o.Order = nil
+		seen := map[uint64]bool{}
 		for _, e := range w.kb.Entries() {
-			if e.Op == "R" {
-				id, _ := strconv.ParseUint(e.Group, 10, 64)
+			id, _ := strconv.ParseUint(e.Group, 10, 64)
+			if !seen[id] {
+				seen[id] = true
 				o.Order = append(o.Order, id)
 			}
 		}
@@ -626,7 +630,7 @@ func gen(r *rng.R, sh *shadow, malformed bool) op {
 		id := pickID(r, sh, nil)
 		return op{K: "weight", ID: id, LW: int64(r.Intn(5)), RW: int64(r.Intn(5)), F: genFault(r, id, 3, fp+16)}
 	case 7:
-		return op{K: "clean", F: genFault(r, pickID(r, sh, func(id uint64) bool { return sh.state[id] == 2 }), 1, fp+10)}
+		return op{K: "clean", F: genFault(r, pickID(r, sh, func(id uint64) bool { return sh.state[id] == 2 }), 3, fp+10)}
 	case 8:
 		id := pickID(r, sh, nil)
 		return op{K: "heartbeat", ID: id, F: genFault(r, id, 1, fp)}
